@@ -25,6 +25,7 @@ PROP_MODULES = {
     "C08": ["c08"],
     "C07": ["c07"],
     "C04": ["c04"],
+    "C01": ["c01"],
 }
 
 
@@ -110,6 +111,8 @@ def _second_backend(smt2: str, timeout_s: int):
                       (["/usr/bin/z3", f"-T:{timeout_s}", "-in"], "z3-4.8")):
         try:
             with tempfile.NamedTemporaryFile("w", suffix=".smt2", delete=False) as f:
+                if "(set-logic" not in smt2:
+                    f.write("(set-logic ALL)\n")
                 f.write(smt2)
                 if "(check-sat)" not in smt2:
                     f.write("\n(check-sat)\n")
@@ -182,7 +185,7 @@ def summarize(agg):
                 e[o["verdict"]] += 1
                 e["secs"] += o["secs"]
                 e["solvers"][o["solver"]] += 1
-                if o["verdict"] != "discharged" and len(e["examples"]) < 3:
+                if o["verdict"] == "undecided" or (o["verdict"] != "discharged" and len(e["examples"]) < 3):
                     e["examples"].append(o)
         out[name] = by
     return out
